@@ -821,4 +821,59 @@ Proof.
   repeat apply conj; try assumption; try lia; symmetry; exact Hst.
 Qed.
 
+
+(* ---------------- remaining effects: HasMember, add_stage, remove_stage ---------------- *)
+Lemma tq_has_iff now a w b :
+  tq_has valid now a w = Ok b ->
+  (b = true <-> exists k, active_index now 0 (t_stages w) = Some k /\ In (k, a) (tkeys (t_mem w))).
+Proof.
+  unfold tq_has. destruct (valid a); [ | discriminate ].
+  destruct (active_index now 0 (t_stages w)) as [k|] eqn:E; intros H; injection H as <-.
+  - rewrite t_has_In. split.
+    + intros Hin. exists k. split; [ reflexivity | exact Hin ].
+    + intros [k' [Hk Hin]]. injection Hk as <-. exact Hin.
+  - split; [ discriminate | ]. intros [k' [Hk _]]. discriminate.
+Qed.
+
+Lemma t_exec_add_stage_effect e s l w w' ms :
+  t_exec valid self e (TAddStage s l) w = Ok (w', ms) -> TInv w ->
+  let n := nlen (t_stages w) in
+  t_stages w' = t_stages w ++ [s] /\ n < 3 /\
+  (forall x, In (n, x) (tkeys (t_mem w')) <-> In x (map fst l)) /\
+  (forall j, j <> n -> scount j (t_mem w') = scount j (t_mem w)) /\
+  (forall p, In p (t_mem w') -> In p (t_mem w) \/ e_stage p = n).
+Proof.
+  intros H (Hnd & Hnum & Hst & Hc & Hle & Hmax & Hn3). cbv zeta.
+  unfold t_exec in H; cbv zeta in H. binds H.
+  match goal with R3 : t_add_stage _ _ _ _ _ _ _ _ = Ok ?x |- _ => destruct x as [[num' sm'] m'] end.
+  injection H as <- _. cbn [tw_stages t_mem t_stages fst snd].
+  set (n := nlen (t_stages w)) in *.
+  assert (Hnone : forall p, In p (t_mem w) -> e_stage p <> n) by (intros p Hp; specialize (Hst p Hp); lia).
+  destruct (t_add_stage_spec _ _ _ _ _ _ _ _ _ _ R0 Hnd Hnum Hle) as (A & B & C & D & E & F & G' & I & J).
+  repeat apply conj; try reflexivity; try lia; try assumption.
+  intros y. rewrite J. split.
+  - intros [Hin|Hin]; [ exfalso; exact (no_stage_key n _ y Hnone Hin) | ].
+    destruct (t_flex w); [ exact Hin | ].
+    rewrite map_map in Hin. cbn [fst] in Hin. rewrite map_id, In_sort_dedup in Hin. exact Hin.
+  - intros Hin. right. destruct (t_flex w); [ exact Hin | ].
+    rewrite map_map. cbn [fst]. rewrite map_id, In_sort_dedup. exact Hin.
+Qed.
+
+Lemma t_exec_remove_stage_effect e k w w' ms :
+  t_exec valid self e (TRemoveStage k) w = Ok (w', ms) -> TInv w ->
+  k < nlen (t_stages w) /\ t_stages w' = firstn (N.to_nat k) (t_stages w) /\
+  (forall p, In p (t_mem w') <-> In p (t_mem w) /\ e_stage p < k) /\
+  t_num w' + nlen (t_range k (nlen (t_stages w)) (t_mem w)) = t_num w.
+Proof.
+  intros H (Hnd & Hnum & Hst & Hc & Hle & Hmax & Hn3).
+  unfold t_exec in H; cbv zeta in H. binds H.
+  destruct (nth_error (t_stages w) (N.to_nat k)) as [s|] eqn:En; [ | discriminate H ].
+  pose proof (nth_error_lt _ _ _ En) as Hk. binds H. injection H as <- _.
+  cbn [tw_stages t_mem t_num t_stages].
+  repeat apply conj; try reflexivity; try lia.
+  intros p. unfold t_del_range. rewrite filter_In. unfold in_range. split.
+  - intros [Hin Hf]. split; [ exact Hin | ]. specialize (Hst p Hin). lia.
+  - intros [Hin Hlt]. split; [ exact Hin | ]. lia.
+Qed.
+
 End Tier.
